@@ -39,6 +39,7 @@ macro_rules! dispatch {
             "C27" => Some(driver::$f::<props::c27::C27>($($a),*)),
             "C28" => Some(driver::$f::<props::c28::C28>($($a),*)),
             "C29" => Some(driver::$f::<props::c29::C29>($($a),*)),
+            "C30" => Some(driver::$f::<props::c30::C30>($($a),*)),
             "C32" => Some(driver::$f::<props::c32::C32>($($a),*)),
             _ => None,
         }
